@@ -398,6 +398,7 @@ type sim struct {
 	hkinds    []string
 	hostileBad bool // a non-benign hostile item was written
 	panics    []string
+	maxAlloc  uint64
 	over      [2]*overRec
 	quiet     bool // Finish: no event-log lines (schedule may be racy there by design)
 	wasDown   [2]bool
@@ -730,7 +731,7 @@ func (s *sim) genRaw(rng *simcore.RNG) simcore.Op {
 	case "rand":
 		op["n"] = rng.Range(1, 300)
 	case "hugelen":
-		op["v"] = rng.Intn(5)
+		op["v"] = rng.Intn(9)
 	case "badproto":
 		op["n"] = rng.Range(1, s.payload+5)
 	}
@@ -764,15 +765,10 @@ func (s *sim) Apply(op simcore.Op) bool {
 		}
 		any := false
 		for i := 0; i < rep; i++ {
-			s.mu.Lock()
-			ok := s.deliver(to, n)
-			s.mu.Unlock()
-			if !ok {
+			if !s.step(to, n) {
 				break
 			}
 			any = true
-			e.Settle()
-			s.after()
 		}
 		if !any {
 			return false
@@ -932,6 +928,45 @@ func (s *sim) opTick(d time.Duration, final bool) bool {
 	default:
 		time.Sleep(d)
 	}
+	return true
+}
+
+// step is one delivery stimulus: deliver, settle, judge. It also carries the allocation oracle
+// of the capacity clause: whatever a peer sends, handling one delivery (at most one packet) must
+// not make the node allocate more than a small multiple of the largest channel capacity plus a
+// packet. TotalAlloc is process-wide and monotonic; only this run's bubble (and the idle
+// watchdog) is alive while it is read.
+func (s *sim) step(to, n int) bool {
+	e := s.env
+	measure := s.c[to].mc != nil && e.Checking("C17")
+	var m0, m1 runtime.MemStats
+	if measure {
+		runtime.ReadMemStats(&m0)
+	}
+	s.mu.Lock()
+	ok := s.deliver(to, n)
+	s.mu.Unlock()
+	if !ok {
+		return false
+	}
+	e.Settle()
+	if measure {
+		runtime.ReadMemStats(&m1)
+		bound := uint64(512 << 10)
+		for _, ch := range s.c[to].chans {
+			if b := uint64(8*(ch.rcap+s.payload+64)) + 512<<10; b > bound {
+				bound = b
+			}
+		}
+		if d := m1.TotalAlloc - m0.TotalAlloc; d > bound {
+			e.Count("probe.alloc_over_bound")
+			e.Fail("C17", "alloc-beyond-capacity", "delivering one chunk (at most one packet) to conn %d made the process allocate %d bytes; largest channel capacity %d, packet payload %d, allowed %d", to, d, (bound-512<<10)/8-uint64(s.payload)-64, s.payload, bound)
+		}
+		if d := m1.TotalAlloc - m0.TotalAlloc; d > s.maxAlloc {
+			s.maxAlloc = d
+		}
+	}
+	s.after()
 	return true
 }
 
@@ -1163,17 +1198,19 @@ func (s *sim) opRaw(op simcore.Op) bool {
 		s.hostileBad = true
 		e.Count("fault.hostile_random_bytes")
 	case "hugelen":
-		switch op.Int("v") {
+		// A bare length prefix announcing far more than a packet may carry. Announced sizes stay
+		// at or below 256 MiB (or are beyond what fits an int): were the receiver to allocate what
+		// a peer announces, the test process must survive to report it.
+		switch v := op.Int("v"); v {
 		case 0:
-			out = binary.AppendUvarint(nil, 1<<40)
+			out = append(bytes.Repeat([]byte{0xff}, 10), 1) // varint overflow
 		case 1:
-			out = binary.AppendUvarint(nil, 1<<62)
+			out = binary.AppendUvarint(nil, 1<<63) // does not fit an int
 		case 2:
-			out = append(bytes.Repeat([]byte{0xff}, 10), 1)
-		case 3:
-			out = binary.AppendUvarint(nil, uint64(s.payload+100000))
+			out = binary.AppendUvarint(nil, uint64(s.payload+64)) // just above the largest packet
 		default:
-			out = binary.AppendUvarint(nil, 1<<63)
+			sizes := []uint64{70000, 1 << 20, 4 << 20, 4<<20 + 1, 32 << 20, 256 << 20}
+			out = binary.AppendUvarint(nil, sizes[(v-3)%len(sizes)])
 		}
 		s.hostileBad = true
 		e.Count("fault.hostile_huge_length")
@@ -1484,15 +1521,11 @@ func (s *sim) Finish() {
 	limit := time.Now().Add(150 * time.Second)
 	for round := 0; round < 4000 && time.Now().Before(limit); round++ {
 		for i := 0; i < 20000; i++ {
-			s.mu.Lock()
-			ok := s.deliver(0, 1<<20)
-			ok = s.deliver(1, 1<<20) || ok
-			s.mu.Unlock()
+			ok := s.step(0, 1<<20)
+			ok = s.step(1, 1<<20) || ok
 			if !ok {
 				break
 			}
-			e.Settle()
-			s.after()
 		}
 		s.mu.Lock()
 		done := s.complete() || s.c[0].errored || s.c[1].errored || s.c[0].stopped || s.c[1].stopped
